@@ -647,6 +647,9 @@ def r24_call_shim(src, item, ed, opts):
             c = [n for n in nodes_of(item, "cast") if n["ty"] == sp["ty"]]
         elif kind == "assign":
             c = [n for n in nodes_of(item, "assign") if n["left_text"] == sp["left"].replace(" ", "")]
+        elif kind == "if_stmt":
+            # a whole `if` statement named by a text its condition mentions
+            c = [n for n in nodes_of(item, "if") if sp["cond_contains"].replace(" ", "") in re.sub(r"\s+", "", src.text(*n["cond"]))]
         elif kind == "iife":
             # an immediately-invoked closure `(|| -> T { B })()`
             c = [n for n in nodes_of(item, "call") if n["func"].startswith("(|") or n["func"].startswith("(move|")]
@@ -667,6 +670,11 @@ def r24_call_shim(src, item, ed, opts):
                 env["recv"] = src.text(*n["receiver"])
                 for j, a in enumerate(n["args"]):
                     env[f"arg{j}"] = src.text(*a["range"])
+                    # an argument that is a parameterless closure: its body (`o.unwrap_or_else(|| E)` is
+                    # by definition `match o { Some(v) => v, None => E }`)
+                    for cn in nodes_of(item, "closure"):
+                        if list(cn["range"]) == list(a["range"]) and not cn["inputs"]:
+                            env[f"arg{j}_body"] = src.text(*cn["body"])
                 # a receiver that is itself a method call (`a.entry(k).or_insert(v)`): its parts by name
                 for rn in nodes_of(item, "methodcall"):
                     if list(rn["range"]) == list(n["receiver"]):
@@ -794,6 +802,22 @@ def r25_closure_wildcard(src, item, ed, opts):
                 ed.count("R25")
 
 
+def r35_unwrap_or_else(src, item, ed, opts):
+    """`O.unwrap_or_else(|| E)` -> `(match O { Some(v) => v, None => E })`: the definition of
+    Option::unwrap_or_else for a parameterless closure; edits inside O and E still apply"""
+    clos = {tuple(c["range"]): c for c in nodes_of(item, "closure")}
+    for n in nodes_of(item, "methodcall"):
+        if n["method"] != "unwrap_or_else" or len(n["args"]) != 1:
+            continue
+        cn = clos.get(tuple(n["args"][0]["range"]))
+        if cn is None or cn["inputs"]:
+            continue
+        ed.insert(n["range"][0], "(match ", "R35")
+        ed.replace(n["receiver"][1], cn["body"][0], " { Some(vx_v) => vx_v, None => ", "R35")
+        ed.replace(cn["body"][1], n["range"][1], " })", "R35")
+        ed.count("R35")
+
+
 RULES = {
     "R6": r6_mem_replace,
     "R18": r18_rendering_error,
@@ -814,7 +838,9 @@ RULES = {
     "R27": r27_for_vec,
     "R30": r30_for_map,
     "R32": r32_for_into_iter_rev,
+    "R35": r35_unwrap_or_else,
     "R32": r32_for_into_iter_rev,
+    "R35": r35_unwrap_or_else,
     "R24": r24_call_shim,
 }
 
